@@ -42,6 +42,13 @@ impl Big {
 pub fn load(name: &str, k: u16) -> Result<Big, String> {
     let bn = match name {
         "cell_division" => BooleanNetwork::try_from(MODEL_CELL_DIVISION)?,
+        // synthetic wide-but-simple networks (more than 53 state bits, so that set sizes exceed
+        // what a double can count exactly): a shift register x00 -> x01 -> ... with a frozen head
+        "synthetic:chain20" => BooleanNetwork::try_from(chain(20, false).as_str())?,
+        "synthetic:chain40" => BooleanNetwork::try_from(chain(40, false).as_str())?,
+        "synthetic:chain60" => BooleanNetwork::try_from(chain(60, false).as_str())?,
+        // the same with an unknown (implicit, unconstrained) update function of the last variable
+        "synthetic:chain58p" => BooleanNetwork::try_from(chain(58, true).as_str())?,
         _ => {
             let path = format!("/repo/benchmark_models/{name}");
             BooleanNetwork::try_from_file(&path).map_err(|e| format!("{path}: {e}"))?
@@ -67,4 +74,17 @@ pub fn family(tier: &str) -> Vec<&'static str> {
     } else {
         all
     }
+}
+
+fn chain(n: usize, param_tail: bool) -> String {
+    let name = |i: usize| format!("x{i:02}");
+    let mut s = format!("{} -> {}\n${}: {}\n", name(0), name(0), name(0), name(0));
+    for i in 1..n {
+        if param_tail && i == n - 1 {
+            s.push_str(&format!("{} -?? {}\n{} -?? {}\n", name(i - 1), name(i), name(i), name(i)));
+        } else {
+            s.push_str(&format!("{} -> {}\n${}: {}\n", name(i - 1), name(i), name(i), name(i - 1)));
+        }
+    }
+    s
 }
